@@ -11,11 +11,13 @@ class RunClass(objworld.ObjWorld):
 
 def gen_config(rng, tier):
     n = rng.choice([1, 2, 2, 3, 3, 3, 4] + ([5] if tier == "thorough" else []))
+    if rng.random() < 0.02:
+        n = rng.choice([6, 7])      # a few runs on larger registers (word / byte boundaries, wider tableaux)
     ops = {"new": 2.0, "copy": 2.0, "query": 4.0, "inplace": 3.0, "scribble": 2.5}
     for k in list(ops):
         ops[k] *= rng.choice([0.5, 1.0, 2.0])
     faults = ["scribble"] if rng.random() < 0.85 else []
-    return {"n": n, "steps": rng.randrange(6, 40) if tier != "thorough" else rng.randrange(6, 90), "ops": ops, "faults": faults, "flags": ["c17"],
+    return {"n": n, "steps": (lambda x: min(x, 14) if n >= 6 else x)(rng.randrange(6, 40) if tier != "thorough" else rng.randrange(6, 90)), "ops": ops, "faults": faults, "flags": ["c17"],
             "backend": "torch" if rng.random() < 0.15 else "numpy"}
 
 
